@@ -3,7 +3,8 @@
 (a) wide programs: N branches x M instant actions in one step (12 x 12 quick, 24 x 24 thorough), block captures at
     (branch, position) pairs whose decimal concatenations collide (1/11 vs 11/1, 2/12 vs 21/2, 1/1+2 ...) and on both
     fold operands, each capture holding its own symbolic constant;
-(b) two-digit step counts (12 steps x 2 branches);
+(b) two-digit step counts (12 steps x 2 branches); a dense program in which every operand of every position is a block
+    (Process and Err operators mixed);
 (c) nesting: every ordered pair of the 12 macro names with the inner macro in an operand, in a block capture and in a
     handler (async inside sync through one poll); seed-sampled triples at depth 3;
 (d) user identifiers spelled like internal ones inside closures.
@@ -54,6 +55,49 @@ def wide(pid, nb, na, seed):
     L.append("vcover!(true, \"end reached\");")
     return Program(pid, "join! with %d branches x %d instant actions, block captures at %s, block fold operands" % (nb, na, sorted(caps)), "    " + "\n    ".join(L),
                    desc=dict(branches=nb + 2, actions=na, captures=sorted(caps)), group="wide", role=dict(kind="join"), solo=True, unwind=12, weight=10, heavy=nb > 12)
+
+
+def dense(pid, nb, na, seed):
+    """nb branches x na positions over symbolic Options; EVERY operand (and every initial value) is a block holding its
+    own symbolic constant, operators rotate over |> => ?> <| <= ->, so a binding name that depends on the wrong
+    (branch, position, operand) triple - also for the error-side operators - picks up another block's value"""
+    L = []
+    brs, exp = [], []
+    for b in range(nb):
+        L.append("let f%d = b(); let x%d = u();" % (b, b))
+        parts = ["{ mo(f%d, x%d) }" % (b, b)]
+        e = "mo(f%d, x%d)" % (b, b)
+        for k in range(1, na + 1):
+            c = "c%d_%d" % (b, k)
+            g = "g%d_%d" % (b, k)
+            L.append("let %s = u(); let %s = b();" % (c, g))
+            kind = (b + k) % 6
+            if kind == 0:
+                parts.append("|> { let c = %s; move |v: u8| v ^ c }" % c)
+                e = "%s.map(|v| v ^ %s)" % (e, c)
+            elif kind == 1:
+                parts.append("<| { mo(%s, %s) }" % (g, c))
+                e = "%s.or(mo(%s, %s))" % (e, g, c)
+            elif kind == 2:
+                parts.append("=> { let c = %s; move |v: u8| mo(v > c, v ^ 1) }" % c)
+                e = "%s.and_then(|v| mo(v > %s, v ^ 1))" % (e, c)
+            elif kind == 3:
+                parts.append("<= { let c = %s; let g = %s; move || mo(g, c) }" % (c, g))
+                e = "%s.or_else(|| mo(%s, %s))" % (e, g, c)
+            elif kind == 4:
+                parts.append("?> { let c = %s; move |v: &u8| *v != c }" % c)
+                e = "%s.filter(|v| *v != %s)" % (e, c)
+            else:
+                parts.append("-> { let c = %s; move |r: Option<u8>| r.map(|v| v.wrapping_add(c)) }" % c)
+                e = "%s.map(|v| v.wrapping_add(%s))" % (e, c)
+        brs.append(" ".join(parts))
+        exp.append(e)
+    text = "join! {\n        %s\n    }" % ",\n        ".join(brs)
+    L.append("let r = %s;" % text)
+    for b in range(nb):
+        L.append("vassert!(r.%d == %s, \"C17[%s]: element %d of the dense block program is its own branch's value (every operand is a block)\");" % (b, exp[b], pid, b))
+    L.append("vcover!(true, \"end reached\");")
+    return Program(pid, text, "    " + "\n    ".join(L), desc=dict(branches=nb, positions=na, all_operands_are_blocks=True), group="dense", role=dict(kind="join"), solo=True, unwind=12, weight=8)
 
 
 def deep(pid, steps, seed):
@@ -161,12 +205,14 @@ def programs(tier, seed):
         ps.append(wide("p%04d" % i, 24, 24, seed))
     i += 1
     ps.append(deep("p%04d" % i, 12, seed))
+    i += 1
+    ps.append(dense("p%04d" % i, 4, 4, seed) if tier == "quick" else dense("p%04d" % i, 6, 6, seed))
     r = rng(seed, "c17nest")
     for outer in NAMES:
         for inner in NAMES:
             for where in ("operand", "capture", "handler"):
                 i += 1
-                if tier == "quick" and (NAMES.index(outer) * 5 + NAMES.index(inner) * 3 + ("operand", "capture", "handler").index(where) + seed) % 4 != 0:
+                if tier == "quick" and (NAMES.index(outer) * 5 + NAMES.index(inner) * 3 + ("operand", "capture", "handler").index(where) + seed) % 6 != 0:
                     continue
                 ps.append(nest("p%04d" % i, outer, inner, where, seed))
     for k in range(6 if tier == "quick" else 40):
@@ -186,7 +232,7 @@ def generate(tier, seed):
 META = dict(
     level="translation_validation",
     rule="programs: one 12 x 12 (thorough also 24 x 24) wide program with block captures at textually colliding (branch, position) pairs and block fold operands; one 12-step program; every ordered pair "
-         "of the 12 macro names x {operand, block capture, handler} (quick: one quarter, seed-rotated) and seed-sampled depth-3 triples; two programs with user identifiers spelled like internal names. "
+         "of the 12 macro names x {operand, block capture, handler} (quick: one sixth, seed-rotated) and seed-sampled depth-3 triples; two programs with user identifiers spelled like internal names. "
          "Each compared with its closed form for ALL symbolic scalars; packed 8 per query; disagreements_checked = programs discharged",
     functions_encoded=["name constructors (__v, __sr{n}, __r{n}, __j{n}, __ew{b}_{pos}_{op}, __h, __rs, __inspect, __tb, __spawn_tokio) as used by the expansions of all 12 names; self-contained block / async block per expansion"],
     bounds=["24 branches x 24 actions, 12 steps, nesting depth 3", "async macros nested in sync code are driven by one poll over ready futures"],
